@@ -22,17 +22,17 @@ RULE = ("one execution = one point of the behaviour product (map|flat_map) x (ex
 REQUIRED = ["line_events", "lock_acquisitions"]
 
 MAP_FN = ["omit", "ret", "raise", "ret_future"]
-MAP_EFN = ["omit", "ret", "ret_none", "raise_new", "reraise"]
+MAP_EFN = ["omit", "ret", "ret_none", "raise_new", "reraise", "raise_equal"]
 FLAT_FN = ["omit", "ret_done", "ret_pending_value", "ret_pending_exc", "ret_failed", "ret_cancelled", "ret_nonfuture", "raise",
            "ret_nested_pending", "ret_nested_done"]
-FLAT_EFN = ["omit", "ret_done", "ret_failed", "ret_pending_value", "ret_pending_exc", "ret_nonfuture", "raise_new", "reraise"]
+FLAT_EFN = ["omit", "ret_done", "ret_failed", "ret_pending_value", "ret_pending_exc", "ret_nonfuture", "raise_new", "reraise", "raise_equal"]
 
 
 def cases(tier, seed):
     out = []
     for kind in ("map", "flat_map"):
         for form in ("executor", "f"):
-            for inp in ("value", "exc", "future_value"):
+            for inp in ("value", "exc", "future_value", "exc_falsy"):
                 for when in ("done", "later"):
                     out.append({"name": "map.laws/%s/%s/%s/%s" % (kind, form, inp, when), "kind": "laws", "op": kind, "form": form,
                                 "inp": inp, "when": when})
@@ -59,6 +59,23 @@ def cases(tier, seed):
     return out
 
 
+class EqError(Exception):
+    """an exception with value equality (like a dataclass exception)"""
+
+    def __eq__(self, other):
+        return type(other) is type(self) and other.args == self.args
+
+    def __hash__(self):
+        return hash(self.args)
+
+
+class FalsyInputError(EqError):
+    """... which is also falsy (an aggregate error with no sub-errors)"""
+
+    def __len__(self):
+        return 0
+
+
 class World(object):
     """One map / flat_map application with recorded fn / error_fn."""
 
@@ -75,7 +92,8 @@ class World(object):
         self.op, self.form, self.inp, self.when, self.fnk, self.efnk = op, form, inp, when, fnk, efnk
         self.inner = None  # pending inner future returned by fn / error_fn
         self.inner_kind = None
-        self.e_in = UserErrorA("input")
+        self.e_in = FalsyInputError("input") if inp == "exc_falsy" else EqError("input")
+        self.e_equal = type(self.e_in)("input")  # equal to the input's exception, but another object
         self.e_fn = UserErrorB("fn")
         self.e_efn = OtherError("error_fn")
         self.e_inner = UserErrorB("inner")
@@ -115,7 +133,7 @@ class World(object):
         else:
             try:
                 raise self.e_in
-            except UserErrorA as e:
+            except EqError as e:
                 fut.set_exception(e)
 
     def complete_input(self):
@@ -173,6 +191,9 @@ class World(object):
             raise self.e_efn
         if k == "reraise":
             raise ex
+        if k == "raise_equal":
+            # a re-wrap: a new exception object that compares equal to the original
+            raise self.e_equal
         return self._ret_future(k, ex)
 
     def model(self):
@@ -210,13 +231,15 @@ class World(object):
         if self.efnk == "omit":
             return ("exc", e, 0, 0)
         if self.efnk == "ret":
-            return ("value", ("rec", "UserErrorA"), 0, 1) if not flat else ("exctype", TypeError, 0, 1)
+            return ("value", ("rec", type(e).__name__), 0, 1) if not flat else ("exctype", TypeError, 0, 1)
         if self.efnk == "ret_none":
             return ("value", None, 0, 1) if not flat else ("exctype", TypeError, 0, 1)
         if self.efnk == "raise_new":
             return ("exc", self.e_efn, 0, 1)
         if self.efnk == "reraise":
             return ("exc", e, 0, 1)
+        if self.efnk == "raise_equal":
+            return ("exc", self.e_equal, 0, 1)
         o = fut_outcome(self.efnk, e)
         return (o[0], o[1], 0, 1)
 
